@@ -358,6 +358,9 @@ type quicClient struct {
 	done bool
 }
 
+// seamIdle is the idle time-out of the stream listeners opened by the seams (scenarios that let long virtual time pass raise it)
+var seamIdle = 30 * time.Second
+
 func (v *vRouter) newQuicServer() *quicServer {
 	return &quicServer{r: v.r, idleTimeout: min(defaultQuicIdleTimeout, seamIdle), logger: v.r.subLoggerForServer("server_quic", "verif")}
 }
